@@ -607,6 +607,8 @@ def rule_get_set_agreement(ctx, rep, rid: str) -> None:
                         return True
                     if a is None or nd.kind in ("test", "iter"):
                         return False
+                    if isinstance(a, ast.Return) and any(pol and isinstance(t_, ast.Compare) and len(t_.ops) == 1 and isinstance(t_.ops[0], ast.In) and isinstance(t_.comparators[0], ast.Attribute) and "getter" in t_.comparators[0].attr for t_, pol in guards_of(a, sp.node)):
+                        return True  # the key is an accessor without a setter: ECMAScript ignores the assignment
                     for x in ast.walk(a):
                         if isinstance(x, (ast.Assign, ast.AugAssign)):
                             tg = x.targets if isinstance(x, ast.Assign) else [x.target]
@@ -1411,3 +1413,91 @@ def rule_converters_convert_members(ctx, rep, rid: str) -> None:
                     rep.ok(rid, key)
     if n < 2:
         raise AnalysisError(f"only {n} member store(s) of host-to-script converters found")
+
+
+# ---- a key is a data property or an accessor, never both ----------------------------------------------------
+def rule_data_accessor_exclusive(ctx, rep, rid: str) -> None:
+    """JSObject keeps data values and accessors in separate tables.  Readers and writers consult them in some order,
+    so an object holding both under one key answers differently depending on who asks (the getter for reads, the
+    data table for hasOwnProperty/keys/JSON).  Every store into an accessor table therefore drops the data entry of
+    that key in the same function, and the function that defines a data property over whatever was there (object
+    literals, defineProperty with a value) drops the accessors."""
+    rep.rule(rid, "every function that stores into an accessor table of an object (`_getters[k] = ..`, `_setters[k] = ..`) removes the data entry of the same key, a defining store of a data property removes the accessors, and delete removes all three: no object holds a data value and an accessor under one key", floor=3)
+    acc_tables = ("_getters", "_setters")
+    n = 0
+    for f in ctx.tree.funcs:
+        if isinstance(f.node, ast.Lambda) or f.module.name not in ("values", "vm", "context"):
+            continue
+        for a in f.own_nodes():
+            if not (isinstance(a, ast.Assign) and len(a.targets) == 1 and isinstance(a.targets[0], ast.Subscript) and isinstance(a.targets[0].value, ast.Attribute) and a.targets[0].value.attr in acc_tables):
+                continue
+            if f.name == "__init__":
+                continue
+            n += 1
+            owner = norm(a.targets[0].value.value)
+            k = norm(a.targets[0].slice)
+            key = f"{f.qual}:{norm(a.targets[0])[:40]}"
+            drops = any(isinstance(c, ast.Call) and isinstance(c.func, ast.Attribute) and c.func.attr == "pop" and norm(c.func.value) == f"{owner}._properties" and c.args and norm(c.args[0]) == k for c in f.own_nodes()) or any(isinstance(d, ast.Delete) and any(norm(t) == f"{owner}._properties[{k}]" for t in d.targets) for d in f.own_nodes())
+            if drops:
+                rep.ok(rid, key)
+            else:
+                rep.bad(rid, key, f"{f.qual} stores an accessor for `{k}` without removing a data value the object may hold under that key: the object then answers reads with the getter and hasOwnProperty/keys/JSON with the stale value, and which one a write reaches depends on the order the writer happens to look", f"{f.module.rel}:{a.lineno}")
+    # the defining data store and delete
+    vals = ctx.tree.mod("values")
+    obj = vals.classes.get("JSObject")
+    if obj is None:
+        raise AnalysisError("JSObject not found")
+    definers = [m for m in obj.methods.values() if not isinstance(m.node, ast.Lambda) and all(any(isinstance(c, ast.Call) and isinstance(c.func, ast.Attribute) and c.func.attr == "pop" and norm(c.func.value) == f"self.{t}" for c in m.own_nodes()) for t in acc_tables) and any(isinstance(a, ast.Assign) and any(isinstance(t, ast.Subscript) and norm(t.value) == "self._properties" for t in a.targets) for a in m.own_nodes())]
+    if not definers:
+        rep.bad(rid, "JSObject:defining-data-store", "JSObject has no method that stores a data value and removes the accessors of that key: object literals and defineProperty({value}) cannot replace an accessor", vals.rel + ":1")
+    else:
+        dn = definers[0].name
+        rep.ok(rid, "JSObject:defining-data-store", {"method": dn})
+        users = [f.qual for f in ctx.tree.funcs for c in f.own_nodes() if isinstance(c, ast.Call) and isinstance(c.func, ast.Attribute) and c.func.attr == dn]
+        n += 1
+        if len(users) >= 2:
+            rep.ok(rid, "JSObject:defining-data-store:used", {"by": sorted(set(users))[:4]})
+        else:
+            rep.bad(rid, "JSObject:defining-data-store:used", f"{dn} is used by {users}: both the object-literal instruction and defineProperty with a value have to define data properties through it", definers[0].loc)
+    dele = obj.methods.get("delete")
+    if dele is not None:
+        n += 1
+        txt = " ".join(norm(x) for x in dele.node.body)
+        if all(t in txt for t in ("_properties", "_getters", "_setters")):
+            rep.ok(rid, "JSObject.delete:all-tables")
+        else:
+            rep.bad(rid, "JSObject.delete:all-tables", "JSObject.delete does not remove the key from all three tables: a deleted accessor keeps answering", dele.loc)
+    if n < 3:
+        raise AnalysisError(f"{rid}: accessor-table stores not found")
+
+
+def rule_nearest_definition_decides(ctx, rep, rid: str) -> None:
+    """Property lookup stops at the nearest object on the prototype chain that defines the key, whatever kind of
+    property it is there.  A lookup helper that walks the WHOLE chain through the accessor tables only (`get_getter`)
+    answers before the data tables of nearer objects were asked: an own data property then fails to shadow an
+    inherited accessor."""
+    rep.rule(rid, "the interpreter's property read and write paths do not ask a chain-wide accessor lookup (a helper that follows _prototype looking at accessor tables only) before the data properties of nearer objects: accessor and data tables are consulted level by level", floor=2)
+    vals = ctx.tree.mod("values")
+    chainwide = set()
+    for ci in vals.classes.values():
+        for m in ci.methods.values():
+            if isinstance(m.node, ast.Lambda):
+                continue
+            walks = any(isinstance(a, ast.Assign) and isinstance(a.value, ast.Attribute) and a.value.attr == "_prototype" for a in m.own_nodes()) and any(isinstance(w, ast.While) for w in m.own_nodes())
+            txt = " ".join(norm(x) for x in m.node.body)
+            if walks and ("_getters" in txt or "_setters" in txt) and "_properties" not in txt:
+                chainwide.add(m.name)
+    df, _ = ctx.facts.vm_dispatcher()
+    n = 0
+    for name in ("_get_property", "_set_property"):
+        f = ctx.tree.find_method(df.cls, name)
+        if f is None:
+            raise AnalysisError(f"{name} not found")
+        n += 1
+        key = f"{f.qual}:level-by-level"
+        calls = [c for c in f.own_nodes() if isinstance(c, ast.Call) and isinstance(c.func, ast.Attribute) and c.func.attr in chainwide]
+        if calls:
+            c = calls[0]
+            rep.bad(rid, key, f"{f.qual} asks `{short(c, 40)}`, which follows the whole prototype chain through the accessor tables, before looking at data properties: an own (or nearer) data property does not shadow an inherited accessor (Object.create(p, {{x: {{value: 5}}}}).x runs p's getter)", f"{f.module.rel}:{c.lineno}")
+        else:
+            rep.ok(rid, key, {"chain_wide_accessor_helpers": sorted(chainwide)})
